@@ -296,6 +296,8 @@ pub fn run(args: &[String], out: &mut Sink) {
     let focus = arg(args, "--focus").unwrap_or("general".into());
     let nops: usize = arg(args, "--nops").and_then(|s| s.parse().ok()).unwrap_or(8);
     let image_driver: Option<String> = arg(args, "--image-driver");
+    // C03: the Lean WAL reader + redo on every crashed directory that holds a WAL (harness/src/wal.rs)
+    let wal_driver: Option<String> = arg(args, "--wal-driver");
     let steps_per_case: usize = arg(args, "--steps").and_then(|s| s.parse().ok()).unwrap_or(2);
     let stride: u64 = arg(args, "--stride").and_then(|s| s.parse().ok()).unwrap_or(1);
     let mode = arg(args, "--mode").unwrap_or("crash".into()); // crash | power | fault | nested
@@ -457,6 +459,9 @@ pub fn run(args: &[String], out: &mut Sink) {
                     if mode == "fault" {
                         check_fault(out, &child_rep, &desc, info, k);
                     }
+                    if let Some(driver) = &wal_driver {
+                        crate::wal::monitor_crash_image(out, driver, &d, &desc);
+                    }
                     // ---- reopen (optionally crashing during recovery: nested) ----
                     let rep_file = format!("{d}.report");
                     let dump_cmd = |abort: Option<u64>, report: &str| {
@@ -526,6 +531,17 @@ pub fn run(args: &[String], out: &mut Sink) {
                                     out.fail(format!("{np} directory does not reopen ({}) after a crash (loss={nloss}) at event {k2} of the recovery that followed {desc}", why.trim().chars().take(160).collect::<String>()));
                                 }
                                 Some(c) => out.fail(format!("{np} reopening crashes (exit {c}) after a crash (loss={nloss}) at event {k2} of the recovery: {desc}")),
+                            }
+                            // the recovery of the interrupted recovery is a recovery too: its trace goes to the order monitor
+                            if std::path::Path::new(&format!("{rep_n}.rtrace")).exists() {
+                                let keep = format!("{root_out}/rtrace");
+                                let _ = std::fs::create_dir_all(&keep);
+                                let dst = format!("{keep}/c{case}_o{si}_k{k}_n{k2}_{}.txt", nloss.replace(':', "-"));
+                                if std::fs::rename(format!("{rep_n}.rtrace"), &dst).is_ok() || std::fs::copy(format!("{rep_n}.rtrace"), &dst).is_ok() {
+                                    out.line(format!("recovery {dst}"), "skip".into());
+                                    out.count("recovery_traces_nested");
+                                }
+                                let _ = std::fs::remove_file(format!("{rep_n}.rtrace"));
                             }
                             let _ = std::fs::remove_dir_all(&dn);
                             cleanup(&dn);
@@ -653,7 +669,7 @@ pub fn run(args: &[String], out: &mut Sink) {
 
 fn cleanup(d: &str) {
     let _ = std::fs::remove_dir_all(d);
-    for ext in ["trace", "trace2", "child", "report"] {
+    for ext in ["trace", "trace2", "child", "report", "report.rtrace"] {
         let _ = std::fs::remove_file(format!("{d}.{ext}"));
     }
 }
